@@ -12,7 +12,7 @@ package daemon
 //@   requires len(os.Args) >= 1 && !cmdStarted
 //@   modifies everything
 //@   attr blocking-ops select#1
-//@   attr select#1 blocking recv(finished) recv(interrupt)
+//@   attr select#1 blocking only recv(finished) recv(interrupt)
 //@   ghost before call Start assert order: sigNotified
 //@   ensures handshake: cmdStarted ==> recvSeq == old(recvSeq) + 1
 //@   ensures pid.encode: cmdStarted ==> binWriteOrder == any(binary.LittleEndian) && typeIs(binWriteVal, uint32) && payload(binWriteVal, uint32) == startedPid % 4294967296
